@@ -683,11 +683,19 @@ func runCtxHistBody(ch ctxHist) (out []string) {
 	defer hd.Close()
 	perr := 0
 	bus := eventbus.New(eventbus.WithStore(hd.Store), eventbus.WithPersistenceErrorHandler(func(any, reflect.Type, error) { perr++ }))
-	count := func(id int) int {
+	// "recorded" is a fact about the log, not about the store object that wrote it: the log
+	// is read through the bus's own store and through a second store opened over the same
+	// medium (another process looking at the same file / stream); both must agree
+	ob, err := med.Open()
+	if err != nil {
+		vrt.MachineryFault("%v", err)
+	}
+	defer ob.Close()
+	countIn := func(st eventbus.EventStore, id int) int {
 		n := 0
 		cur := eventbus.OffsetOldest
 		for k := 0; k < 64; k++ {
-			evs, next, err := hd.Store.Read(context.Background(), cur, 0)
+			evs, next, err := st.Read(context.Background(), cur, 0)
 			if err != nil {
 				bad("store read failed: %v", err)
 				return -1
@@ -704,6 +712,13 @@ func runCtxHistBody(ch ctxHist) (out []string) {
 			cur = next
 		}
 		return n
+	}
+	count := func(id int) int {
+		a, b := countIn(hd.Store, id), countIn(ob.Store, id)
+		if a != b {
+			bad("%s store: the record of a publish is there %d times read through the store that wrote it and %d times read through a second store opened over the same medium", ch.Medium, a, b)
+		}
+		return b
 	}
 	inHandler := map[int]int{}
 	ran := map[int]int{}
@@ -755,8 +770,12 @@ type cinst struct {
 	// every other publish - also one made while the error handler runs, also the error
 	// handler's own - is recorded once, before it is delivered
 	failer int
-	rec    h.Rec
-	st     string
+	// afterShutdown: before the publishers start, the bus has been through a Shutdown that
+	// gave up (its context ended while an asynchronous handler was still running): the store
+	// was not closed, the bus is still a persistent bus, and every publish is recorded
+	afterShutdown bool
+	rec           h.Rec
+	st            string
 	offs   []string
 	types  []string
 }
@@ -787,6 +806,16 @@ func (ci *cinst) Body() {
 	} else {
 		eventbus.Subscribe(bus, seen)
 	}
+	gate := make(chan struct{})
+	if ci.afterShutdown {
+		eventbus.Subscribe(bus, func(e EvB) { vrt.Recv(gate) }, eventbus.Async())
+		eventbus.Publish(bus, EvB{N: 1})
+		sctx, scancel := context.WithCancel(context.Background())
+		scancel()
+		if err := bus.Shutdown(sctx); err == nil {
+			ci.rec.Add("shutdown-returned-nil", 0, 0, "")
+		}
+	}
 	for t := 0; t < ci.n; t++ {
 		t := t
 		vrt.Go(func() {
@@ -798,10 +827,16 @@ func (ci *cinst) Body() {
 	if ci.failer > 0 {
 		vrt.Go(func() { eventbus.Publish(bus, Env{ID: 7, Payload: make(chan int)}) })
 	}
+	if ci.afterShutdown {
+		vrt.Go(func() { vrt.Point(); vrt.Close(gate) })
+	}
 	vrt.Join()
 	bus.Wait()
 	evs, _, _ := ms.Read(context.Background(), eventbus.OffsetOldest, 0)
 	for _, se := range evs {
+		if se.Type == "ev.b.v1" {
+			continue // the event of the handler that kept Shutdown waiting
+		}
 		ci.offs = append(ci.offs, string(se.Offset))
 		var d EvA
 		json.Unmarshal(se.Data, &d)
@@ -817,6 +852,9 @@ func (ci *cinst) Check(res *vrt.Result) []vrt.Violation {
 	name := fmt.Sprintf("concurrent publishers %dx%d async=%v", ci.n, ci.per, ci.async)
 	if ci.failer > 0 {
 		name += []string{"", " + a publisher of an unencodable value", " + a publisher of an unencodable value whose error handler publishes"}[ci.failer]
+	}
+	if ci.afterShutdown {
+		name += " after a Shutdown that gave up"
 	}
 	vs := vrt.StatusViolations(name, res)
 	if res.Status != vrt.StatusOK {
@@ -881,6 +919,12 @@ func schedScenarios(thorough bool) []vrt.Scenario {
 	for _, s := range shapes {
 		s := s
 		l = append(l, vrt.Scenario{Name: fmt.Sprintf("publishers-%dx%d-async%d", s[0], s[1], s[2]), New: func() vrt.Instance { return &cinst{n: s[0], per: s[1], async: s[2] == 1} }})
+	}
+	for _, s := range [][3]int{{1, 1, 0}, {1, 2, 0}, {1, 1, 1}} {
+		s := s
+		l = append(l, vrt.Scenario{Name: fmt.Sprintf("publishers-%dx%d-async%d-after-a-shutdown-that-gave-up", s[0], s[1], s[2]), New: func() vrt.Instance {
+			return &cinst{n: s[0], per: s[1], async: s[2] == 1, afterShutdown: true}
+		}})
 	}
 	for _, f := range []int{1, 2} {
 		for _, s := range [][3]int{{1, 1, 0}, {1, 2, 0}, {2, 1, 0}, {1, 1, 1}} {
